@@ -785,6 +785,10 @@ class Engine:
     def e_BinOp(self, st, node):
         a = self.eval(st, node.left)
         b = self.eval(st, node.right)
+        hook = "binop:" + type(node.op).__name__
+        if hook in self.contract.externals and any(isinstance(x, V) and type(x.t) is type(Key) for x in (a, b)):
+            # an operator applied to an opaque value (an array): the contract names what it means
+            return self.external(st, hook, [a, b], node, {})
         return self.arith(st, node.op, a, b, node)
 
     def container_binop(self, st, op, a, b, node):
